@@ -1,5 +1,6 @@
 """C04 — stop-and-continue is invisible: split runs equal one uninterrupted run.
 Model: coq/theories/Interp.v (save / load / run_history); theorems: coq/props/C04.v."""
+import os
 from collections import Counter
 
 from . import common as C
@@ -119,6 +120,22 @@ def generate(rng, tier):
 
 
 def run_impl(case):
+    if case.get("files") is not None:
+        # a hand-written recipe (regression witness) that reads files: {DIR} is a scratch directory
+        import copy
+        import shutil
+        import tempfile
+        d = tempfile.mkdtemp(prefix="sfv_c04_", dir="/var/tmp")
+        try:
+            for name, text in case["files"].items():
+                with open(os.path.join(d, name), "w") as f:
+                    f.write(text)
+            c2 = copy.deepcopy(case)
+            c2["files"] = None
+            c2["recipe"]["raw_yaml"] = c2["recipe"]["raw_yaml"].replace("{DIR}", d)
+            return run_impl(c2)
+        finally:
+            shutil.rmtree(d, ignore_errors=True)
     r = case["recipe"]
     ks = case["ks"]
     whole = S.run_recipe(r, reps=sum(ks))
@@ -153,6 +170,8 @@ def run_impl(case):
 
 
 def coq_case(case, obs):
+    if case["recipe"].get("raw_yaml"):
+        return None            # hand-written witness outside the SF-core AST: implementation oracle only
     runs = obs["runs"]
     if all("ok" in r for r in runs) and len(runs) == len(case["ks"]):
         if not all(S.comparable(r["ok"]) for r in runs):
